@@ -131,11 +131,15 @@ def setup_sandbox(base, store, pre, old_obj, template=None):
     return target
 
 
-def observe_target(target, spec_new, spec_old, pre_hash, post_hash=None):
+def observe_target(target, spec_new, spec_old, pre_hash, post_hash=None, verified=None):
+    """`verified`: a set of tree hashes already shown (by loading) to be the complete earlier object — a target
+    with the same bytes is not loaded again"""
     from quantem.core.io import serialize
     if not os.path.lexists(target):
         return "absent", None
     h = post_hash if post_hash is not None else tree_hash(target)
+    if verified is not None and h == pre_hash and h in verified:
+        return "unchanged", None
     if spec_old is None and pre_hash is not None and h == pre_hash:
         # a foreign path that is bit for bit (and link for link) what it was: not loaded — load() of a
         # foreign directory is create-or-open and would write zarr metadata into it (or through a link)
@@ -149,6 +153,8 @@ def observe_target(target, spec_new, spec_old, pre_hash, post_hash=None):
     if sc.prop_equal(spec_new, ob) is None:
         return "complete-new", None
     if spec_old is not None and sc.prop_equal(spec_old, ob) is None and h == pre_hash:
+        if verified is not None:
+            verified.add(h)
         return "unchanged", None
     return "partial-loadable", sc.short(ob, 300)
 
@@ -169,7 +175,7 @@ def run_config(ctx, drv, recipe, old_recipe, store, mode, pre, idx, call="exact"
     pathlib.Path), "relative" (a relative spelling of the same path).
     faults: "all" = every primitive call of the save is a fault position; "tail" = the fault-free run, the last
     four positions (end of staging + install: the only ones where the KIND of the pre-existing target matters)
-    and one earlier position"""
+    and one earlier position; "stride" = the tail and every second position"""
     scratch = os.path.join(os.environ.get("QVERIF_SCRATCH", "/tmp"), "c08")
     base = os.path.join(scratch, f"s{idx}")
     builder = sc.Builder(None)
@@ -204,6 +210,8 @@ def run_config(ctx, drv, recipe, old_recipe, store, mode, pre, idx, call="exact"
                 os.replace(tpl + ".zip", tpl)
         if stem_sibling == "dir":
             old_obj.save(tpl_stem, store="dir")
+
+    verified = set()
 
     def one(fault):
         target = setup_sandbox(base, store, pre, old_obj, template=tpl)
@@ -243,7 +251,7 @@ def run_config(ctx, drv, recipe, old_recipe, store, mode, pre, idx, call="exact"
         # hashes BEFORE load(): zarr.group() creates metadata in a foreign directory it is pointed at
         post_hash = tree_hash(target)
         sib_ok = sib_hash == sibling_hashes(base, more)
-        state, detail = observe_target(target, spec_new, spec_old, pre_hash, post_hash)
+        state, detail = observe_target(target, spec_new, spec_old, pre_hash, post_hash, verified)
         extra = [p for p in listing if p not in SIBLINGS + (os.path.basename(target),)
                  and not (stem_sibling and p == os.path.basename(stem))]
         if rec.notes:
@@ -259,6 +267,8 @@ def run_config(ctx, drv, recipe, old_recipe, store, mode, pre, idx, call="exact"
     fs0 = [["sib", ["foreign", 9]]] + ([["T", pre_content]] if pre_content else [])
     if faults == "tail":
         fault_list = [None] + sorted(set(range(max(0, n - 4), n)) | ({idx % n} if n else set()))
+    elif faults == "stride":
+        fault_list = [None] + sorted(set(range(max(0, n - 4), n)) | set(range(idx % 2, n, 2)))
     else:
         fault_list = [None] + list(range(n))
     for k in fault_list:
@@ -577,8 +587,11 @@ def run(ctx):
                 foreign = FOREIGN[(i + 4 * si) % len(FOREIGN)]
                 for ci, (mode, pre) in enumerate((("o", "absent"), ("o", "earlier"), ("o", foreign), ("w", "absent"))):
                     call = styles[(i + ci) % len(styles)]
+                    # mode 'o' onto an absent target runs the code path of mode 'w' onto an absent target (enumerated
+                    # exhaustively): every second position and the install phase
                     run_config(ctx, drv, recipe, old_recipe, store, mode, pre, idx, call,
-                               stem=(["dir", "file", None][(i + ci) % 3] if call == "noext" else None))
+                               stem=(["dir", "file", None][(i + ci) % 3] if call == "noext" else None),
+                               faults=("stride" if (mode, pre) == ("o", "absent") else "all"))
                     idx += 1
                 # the KIND of a pre-existing target only matters from the end of staging on (_install): three more
                 # kinds per graph and store with the fault positions of that phase
